@@ -69,7 +69,11 @@ def build_retry(r):
     if r.get("max") is not None:
         stops.append(stop_after_attempt(r["max"]))
     if r.get("stop_delay") is not None:
-        stops.append(stop_after_delay(r["stop_delay"]))
+        if r.get("stop_delay_td"):
+            import datetime as _dtm
+            stops.append(stop_after_delay(_dtm.timedelta(milliseconds=int(r["stop_delay"] * 1000))))
+        else:
+            stops.append(stop_after_delay(r["stop_delay"]))
     if stops:
         s = stops[0]
         for x in stops[1:]:
@@ -80,6 +84,9 @@ def build_retry(r):
         kind = w[0]
         if kind == "fixed":
             kw["wait"] = wait_fixed(w[1])
+        elif kind == "fixed_td":
+            import datetime as _dtm
+            kw["wait"] = wait_fixed(_dtm.timedelta(milliseconds=w[1]))
         elif kind == "chain":
             kw["wait"] = wait_chain(*[wait_fixed(d) for d in w[1]])
         elif kind == "exp":
@@ -109,6 +116,7 @@ def _mk_body(sname, scfg, rig: Rig):
             sf = {"step": ev.step_name, "attempts": int(ev.attempts), "elapsed_ms": int(round(ev.elapsed_seconds * 1000)),
                   "exc": type(ev.exception).__name__}
         rig.log({"e": "step_start", "step": sname, "uid": uid, "ty": ty, "retry": retry, "nth": nth, "sf": sf,
+                 "sf_input": E.uid_of(ev.input_event) if ty == "Failed" else "",
                  "live": rig.live[sname], "depth": uid.count("F("),
                  "ri_elapsed_ms": int(round(ri.elapsed_seconds * 1000)),
                  "ri_last_exc": type(ri.last_exception).__name__ if ri.last_exception is not None else "none"})
@@ -123,7 +131,10 @@ def _mk_body(sname, scfg, rig: Rig):
                 elif o == "send":
                     for i in range(op.get("n", 1)):
                         cls = E.TYPES[op["ty"]]
-                        ctx.send_event(cls(uid="%s.%s%s%d" % (uid, sname, op["ty"], i), k=i), step=op.get("target"))
+                        if op.get("same"):       # equal-valued events (same uid, same payload)
+                            ctx.send_event(cls(uid="%s.%s%s" % (uid, sname, op["ty"]), k=0), step=op.get("target"))
+                        else:
+                            ctx.send_event(cls(uid="%s.%s%s%d" % (uid, sname, op["ty"], i), k=i), step=op.get("target"))
                 elif o == "publish":
                     ctx.write_event_to_stream(E.TYPES[op["ty"]](uid="%s!%s" % (uid, sname)))
                 elif o == "collect":
@@ -244,6 +255,8 @@ def cfg_for_tla(prog: dict) -> dict:
             w = r.get("wait") or ["fixed", 5]
             if w[0] == "fixed":
                 wait = {"k": "fixed", "a": int(w[1] * 1000), "b": 0, "c": 0, "ds": []}
+            elif w[0] == "fixed_td":
+                wait = {"k": "fixed", "a": int(w[1]), "b": 0, "c": 0, "ds": []}
             elif w[0] == "chain":
                 wait = {"k": "chain", "a": 0, "b": 0, "c": 0, "ds": [int(d * 1000) for d in w[1]]}
             elif w[0] == "exp":
